@@ -163,7 +163,14 @@ def work(p):
         cfgf.params = [gm.Param("cfg", "normal", vals=["None", "{'a': 1}", "{'a': 's'}", "{'b': 1.5}"]),
                        gm.Param("many", "normal", vals=["[None, {'a': 1}]", "[{'a': 's'}]", "[{1: 2}, None]", "[{1: 's'}]"])]
         cfgf.ret_vals = ["{'r': 1}", "None", "{'r': 's'}", "{'r': None}"]
-        extra = [fam, tdf, tup, abcf] + dds + [hist, yf, cfgf]
+        # functions with EQUAL signatures (names, kinds, traced types) whose types are classes the traced module itself defines
+        owns = []
+        for nm in ("own_a", "own_b", "own_c"):
+            f = gm.FuncSpec(70 + len(owns), nm, [], "module", "plain")
+            f.params = [gm.Param("item", "normal", vals=["Own()"]), gm.Param("inner", "normal", default="None", vals=["Own.Inner()", "None"])]
+            f.ret_vals = ["Own()"]
+            owns.append(f)
+        extra = [fam, tdf, tup, abcf] + dds + [hist, yf, cfgf] + owns
         nfixed = len(extra)
         if spec.get("collide"):
             # pinned witness of the listed finding: two functions share a parameter name and get differently shaped dicts
@@ -186,6 +193,7 @@ def work(p):
         plan += [(f, [v], {}) for f in dds for v in f.params[0].vals] + [(hist, [v, w], {}) for v in hist.params[0].vals for w in hist.params[1].vals]
         plan += [(f, [f.params[0].vals[0]], {}) for f in extra[nfixed:]] + [(yf, ["1"], {})] * 3
         plan += [(cfgf, [v, w], {}) for v, w in zip(cfgf.params[0].vals, cfgf.params[1].vals)]
+        plan += [(f, ["Own()", w], {}) for f in owns for w in ("Own.Inner()", "None")]
         traces = modrun.trace_plan(tmod, path, m, plan, k)
         from monkeytype.tracing import CallTrace
 
